@@ -21,7 +21,7 @@ reg("C16",
                      "on the implementation only"}],
     proof_files=["Base/Prelude.v", "Base/Decimal.v", "Model/CursorCodec.v", "Model/Dbin.v", "Model/OneBlockName.v",
                  "Spec/C16_Spec.v", "Proofs/PreludeFacts.v", "Proofs/DecimalFacts.v", "Proofs/CursorCodecFacts.v",
-                 "Proofs/DbinFacts.v", "Proofs/C16_Proofs.v", "Proofs/OneBlockNameFacts.v", "Properties/C16.v",
+                 "Proofs/DbinFacts.v", "Proofs/C16_Proofs.v", "Proofs/OneBlockNameFacts.v", "Proofs/C16_CheckFacts.v", "Properties/C16.v",
                  "Check/C16_Check.v"],
     rule="generated block sequences (1-5 blocks; ids of 0..64 bytes incl. non-ASCII; boundary/random 64-bit heights, LIB and "
          "parent numbers; nil/zero/negative/ordinary timestamps; payload type URLs of 1..271 bytes; payloads empty, short, "
